@@ -57,6 +57,9 @@ pub enum SOp {
     Pause(u64),
     /// the application drops the terminal here, with whatever is still queued (ends the script)
     DropTerminal,
+    /// this many 64 KiB frames are written and flushed without a poll in between (a terminal that is
+    /// far behind: nothing may be discarded on the library's own initiative)
+    Backlog(usize),
 }
 
 #[derive(Clone, Debug, PartialEq, Eq, Hash, Serialize, Deserialize)]
@@ -324,19 +327,31 @@ fn check_term(script: &[SOp], drain: &DrainSpec, seed: u64, ctx: &mut Ctx) -> Re
         }
         let head = header(id, body.len());
         term.write_all(&head).map_err(|e| Fail::new("term:write-error", format!("{e}")))?;
+        // odd chunks hand runs of commands over in one `execute_many` call
+        let batch = id % 2 == 1;
+        let mut pending: Vec<TerminalCommand> = Vec::new();
         for p in parts {
             match p {
                 Part::Payload(n) => {
+                    if !pending.is_empty() {
+                        term.execute_many(std::mem::take(&mut pending))
+                            .map_err(|e| Fail::new("term:execute-error", format!("{e:?}")))?;
+                    }
                     let data = payload(id, *n);
                     // split large payloads into several write calls
                     for piece in data.chunks(60_000) {
                         term.write_all(piece).map_err(|e| Fail::new("term:write-error", format!("{e}")))?;
                     }
                 }
+                other if batch => pending.push(part_cmd(other).unwrap()),
                 other => term
                     .execute(part_cmd(other).unwrap())
                     .map_err(|e| Fail::new("term:execute-error", format!("{e:?}")))?,
             }
+        }
+        if !pending.is_empty() {
+            term.execute_many(pending)
+                .map_err(|e| Fail::new("term:execute-error", format!("{e:?}")))?;
         }
         let mut full = head;
         full.extend_from_slice(&body);
@@ -381,6 +396,13 @@ fn check_term(script: &[SOp], drain: &DrainSpec, seed: u64, ctx: &mut Ctx) -> Re
             SOp::DropTerminal => {
                 dropped_early = true;
                 break;
+            }
+            SOp::Backlog(frames) => {
+                for _ in 0..*frames {
+                    emit(&mut term, &[Part::Payload(65_536)], &mut chunks)?;
+                    term.flush().map_err(|e| Fail::new("term:flush-error", format!("{e}")))?;
+                }
+                ctx.feat("term.backlog-of-megabytes");
             }
         }
     }
@@ -581,6 +603,14 @@ impl Prop for C16 {
                     4 => script.push(SOp::Pause(rng.range(100, 3000) as u64)),
                     _ => {
                         let mut parts = Vec::new();
+                        // now and then a chunk is a run of commands with a repeated cursor position
+                        if rng.chance(1, 4) {
+                            let (r, c) = (rng.below(50), rng.below(200));
+                            parts.push(Part::CursorTo(r, c));
+                            parts.push(Part::EraseChars(rng.range(1, 99)));
+                            parts.push(Part::CursorTo(r, c));
+                            parts.push(Part::Title(rng.range(0, 20)));
+                        }
                         for _ in 0..rng.range(1, 3) {
                             parts.push(match rng.below(8) {
                                 0 => Part::CursorTo(rng.below(50), rng.below(200)),
@@ -599,6 +629,11 @@ impl Prop for C16 {
                         script.push(SOp::Chunk { parts, poll_ms });
                     }
                 }
+            }
+            // one session in forty queues 9..12 MiB behind a chunk that is partly sent
+            if rng.chance(1, 40) {
+                script.push(SOp::Chunk { parts: vec![Part::Payload(500_000)], poll_ms: Some(0) });
+                script.push(SOp::Backlog(rng.range(140, 190)));
             }
             // one session in three ends by dropping the terminal while output is still queued,
             // usually right after a large chunk was handed over
